@@ -66,6 +66,13 @@ inline std::vector<T::RegisterState> States() {
         s.sat = 0, s.sata = 0;
         v.push_back(s);
     }
+    {
+        T::RegisterState s = r; // exactly one open loop: the instructions that close a loop take the nesting count to zero
+        s.lp = 1, s.bcn = 1;
+        s.bkrep_stack[0] = {0x2000u, 0x2004u, 2};
+        s.r[0] = s.r[1] = s.r[2] = s.r[3] = 0x0400, s.r[7] = 0x0500;
+        v.push_back(s);
+    }
     return v;
 }
 
@@ -99,7 +106,7 @@ struct Runner {
         m.LoadCore(c);
     }
     std::string OpName(u16 op) {
-        return m.interp->decoders[op].GetName();
+        return ::Decode<T::Interpreter>(op).GetName();
     }
 
     // returns the outcome; `site` names the code site for the violation key
@@ -263,11 +270,15 @@ inline std::vector<Case> Cases(bool full_dma) {
     // (a) every opcode x second words x states x pc classes (prpage on for one class)
     for (u32 op = 0; op < 0x10000; ++op)
         for (u32 e : {0x0000u, 0xFFFFu, 0x8000u})
-            for (u32 st = 0; st < 4; ++st) {
+            for (u32 st = 0; st < 5; ++st) {
                 if (!thorough && e == 0x8000u && st != 1)
+                    continue;
+                if (!thorough && st == 4 && e != 0)
                     continue;
                 for (u32 pcsel : {1u, 2u, 3u, 5u}) { // 0x1000 ; 0x3FFFE ; 0x3FFFF ; 0x1000 with prpage=1
                     if (!thorough && pcsel != 1 && (st != 0 || e != 0))
+                        continue;
+                    if (st == 4 && pcsel != 1)
                         continue;
                     v.push_back({0, op, e, st, pcsel});
                 }
@@ -467,6 +478,7 @@ int main(int argc, char** argv) {
                             if (cur != last) {
                                 last = cur;
                                 since = Clock();
+                                local.evaluations = cur + 1; // progress visible to the pool supervisor (the final counters are set from the shared block below)
                             } else if (since.Sec() > case_limit_s) {
                                 kill(p, SIGKILL);
                                 waitpid(p, &st, 0);
@@ -524,13 +536,13 @@ int main(int argc, char** argv) {
         res.distinct_nontrivial = 3 + res.violations.size();
     }
     res.rule = "every case of four families is executed on the real machine built with AddressSanitizer + UBSan + libstdc++ assertions, with the memory "
-               "observer rejecting any DSP-memory word address >= 0x40000 before the access; (a) all 65536 opcodes x second words x 4 reachable register states x "
+               "observer rejecting any DSP-memory word address >= 0x40000 before the access; (a) all 65536 opcodes x second words x 5 reachable register states (the fifth, exactly one open loop, at pc 0x1000 only) x "
                "pc at 0x1000 / 0x3FFFE / 0x3FFFF / with prpage=1, 3 cycles each; all 65536 opcodes x 15 boundary values of the shift-amount register (+-39..41, +-63..65, "
                "+-32, 0x7FFF..0x8001) with both shift modes and accumulator signs at +-40; all 65536 opcodes after each of the six ar/arp words has been written with 0xFFFF / 0x8421 (reserved bits set); both audio ports with 0..17 words queued, enabled or not, under an idle and a busy main line for three sample periods; (b) 10 control-flow forms x 5 edge targets x 4 states, 5 cycles; (c) every one of "
                "the 2048 MMIO offsets x 22 values x both paths, all DMA registers read back, 4 cycles; (d) DMA/AHBM configurations with extreme register values, "
                "address high words {0,1,2,FFFF}^2, spaces, modes, AHBM unit/burst, then a start; acceptable outcomes: return, UnimplementedException, deliberate "
                "assertion; distinct = acceptable outcome classes + violation classes";
-    res.bound = "full products: 65536 opcodes x 3 second words x 4 states x 4 pc classes; 65536 opcodes x 21 shift-amount cases; 65536 opcodes x 6 ar/arp words x 2 values; 200 control-flow cases; 2048 offsets x 22 values x 2 paths; 16 registers x 5 values x 16 high-word pairs x " + std::string(th ? "1024" : "a fixed quarter of 64") + " mode combinations";
+    res.bound = "full products: 65536 opcodes x 3 second words x 4 states x 4 pc classes plus a fifth state with exactly one open loop (pc class 0x1000); 65536 opcodes x 21 shift-amount cases; 65536 opcodes x 6 ar/arp words x 2 values; 200 control-flow cases; 2048 offsets x 22 values x 2 paths; 16 registers x 5 values x 16 high-word pairs x " + std::string(th ? "1024" : "a fixed quarter of 64") + " mode combinations";
     res.assumptions = {"register states are reachable ones (loop depth <= 4 with consistent flags); arbitrary host-forged states are outside the property",
                        "uninitialised reads are not in ASan's scope; C17's heap-fill comparison covers constructor-uninitialised members"};
     res.AddSample("c18 0 23984 0 0 5 : opcode 5DB0 (mov #0,prpage...) family at pc 0x1000 with prpage=1");
